@@ -429,6 +429,18 @@ func FindRel(rels []Rel, l, r VP) (string, *Rel) {
 	return "", nil
 }
 
+// Facing returns the relation written with the operand satisfying l on the
+// left (`a > b` and `b < a` are the same relation).
+func (x Rel) Facing(l VP) (Rel, bool) {
+	if l(x.L) {
+		return x, true
+	}
+	if l(x.R) {
+		return Rel{L: x.R, R: x.L, Op: flipOp(x.Op), Src: x.Src}, true
+	}
+	return x, false
+}
+
 func relsString(rels []Rel) string {
 	var s []string
 	for _, r := range rels {
